@@ -2151,6 +2151,7 @@ package goatlang
 //@   property C14
 //@   requires s != nil
 //@   allocates elems(string)
+//@   ensures#full result != "[...]"
 //@   callsite#bounded (Value).safeStr: arg_v.t.isSafeStr()
 //@ func (*sliceT).SafeStr loop 0
 //@   invariant s != nil && (cap(p) == 0 || isfresh(arr(p)))
